@@ -32,35 +32,39 @@ def toInt32 (n : Nat) : Int := if n ≥ 2147483648 then (n : Int) - 4294967296 e
 /-- Go's `int32(x / y)` for non-negative int64 operands (truncation to 32 bits, two's complement) -/
 def int32OfNat (n : Nat) : Int := toInt32 (n % 4294967296)
 
-/-- `JournalReader.Next` (after the page-size fix: the page size is resolved from the first header
-    before it is used as a divisor, and an unknown database page size adopts the journal's) -/
-def JR.next (r : JR) (j : ByteArray) : Except String NextRes := do
-  let off ← journalHeaderOffset r.offset r.sectorSize
-  let r := { r with offset := off }
-  if j.size < off + 28 then return .eof r
-  let hdr := j.extract off (off + 28)
-  if isZero hdr then return .eof r
-  if off > 0 && hdr.extract 0 8 != journalMagic then return .eof r
-  -- sector and page size come from the first header only
-  let r ← (if off = 0 then do
-      let ps := be32 hdr 24
-      let ps := if ps = 0 then r.pageSize else ps
-      let r := if r.pageSize = 0 then { r with pageSize := ps } else r
-      if ps ≠ r.pageSize then throw "journal header page size does not match database"
-      pure { r with sectorSize := be32 hdr 20 }
-    else pure r)
-  if r.pageSize = 0 then return .eof r     -- nothing can be rolled back without a page size
-  let n := toInt32 (be32 hdr 8)
-  let frameN : Int :=
-    if n = -1 then
-      -- int32((size - sectorSize) / pageSize); a negative dividend truncates toward zero
-      (if j.size ≥ r.sectorSize then int32OfNat ((j.size - r.sectorSize) / r.pageSize)
-       else - int32OfNat ((r.sectorSize - j.size) / r.pageSize))
-    else if n = 0 then int32OfNat ((j.size - off) / r.pageSize)
-    else n
-  let r := { r with frameN := frameN, nonce := be32 hdr 12, commit := be32 hdr 16 }
-  if off + r.sectorSize > j.size then return .eof r
-  return .ok { r with offset := off + r.sectorSize, isValid := true }
+def badSector (sector : Nat) : Bool := sector < 32 || sector > 65536 || (sector &&& (sector - 1)) != 0
+
+/-- frame count of a segment: the header's count, or derived from the journal size when the count
+    is -1 (no-sync) or 0 (not synced) -/
+def segFrameN (n : Int) (size off sector ps : Nat) : Int :=
+  if n = -1 then
+    (if size ≥ sector then int32OfNat ((size - sector) / ps) else - int32OfNat ((sector - size) / ps))
+  else if n = 0 then int32OfNat ((size - off) / ps)
+  else n
+
+/-- `JournalReader.Next` (after the fixes 2a86cf3 and 17e62fc: sector and page size are validated and
+    resolved from the first header before they are used) -/
+def JR.nextAt (r : JR) (j : ByteArray) (off : Nat) : Except String NextRes :=
+    let r := { r with offset := off }
+    if j.size < off + 28 then .ok (.eof r) else
+    let hdr := j.extract off (off + 28)
+    if isZero hdr then .ok (.eof r) else
+    if off > 0 && hdr.extract 0 8 != journalMagic then .ok (.eof r) else
+    let sector := be32 hdr 20
+    if off = 0 && badSector sector then .ok (.eof { r with sectorSize := sector }) else
+    let ps := if be32 hdr 24 = 0 then r.pageSize else be32 hdr 24
+    let r1 : JR := if off = 0 then { r with sectorSize := sector, pageSize := if r.pageSize = 0 then ps else r.pageSize } else r
+    if off = 0 && ps ≠ r1.pageSize then .error "journal header page size does not match database" else
+    if r1.pageSize = 0 then .ok (.eof r1) else
+    let r2 := { r1 with frameN := segFrameN (toInt32 (be32 hdr 8)) j.size off r1.sectorSize r1.pageSize,
+                        nonce := be32 hdr 12, commit := be32 hdr 16 }
+    if off + r2.sectorSize > j.size then .ok (.eof r2)
+    else .ok (.ok { r2 with offset := off + r2.sectorSize, isValid := true })
+
+def JR.next (r : JR) (j : ByteArray) : Except String NextRes :=
+  match journalHeaderOffset r.offset r.sectorSize with
+  | .error m => .error m
+  | .ok off => r.nextAt j off
 
 /-- `JournalReader.ReadFrame`: `none` = io.EOF -/
 def JR.readFrame (r : JR) (j : ByteArray) : JR × Option (Nat × ByteArray) :=
